@@ -87,19 +87,25 @@ type runner struct {
 }
 
 const findingNegZero = "C08-negative-zero-score-sign"
+const findingInfSpelling = "C08-infinite-score-spelled-go-style"
 
-// unsignZero rewrites every bulk "-0" of a sorted-set reply to "0" (scores only: no member
-// of the vocabulary is called "-0").
-func unsignZero(v resp.Val) resp.Val {
+// scoreSpelling rewrites the bulk strings of a sorted-set reply that a recorded finding
+// says are spelled differently (scores only: no member of the vocabulary has these names).
+func scoreSpelling(v resp.Val, zero, inf bool) resp.Val {
 	switch v.Kind {
 	case 'b':
-		if v.S == "-0" {
+		switch {
+		case zero && v.S == "-0":
 			v.S = "0"
+		case inf && v.S == "+Inf":
+			v.S = "inf"
+		case inf && v.S == "-Inf":
+			v.S = "-inf"
 		}
 	case 'a':
 		a := make([]resp.Val, len(v.A))
 		for i := range v.A {
-			a[i] = unsignZero(v.A[i])
+			a[i] = scoreSpelling(v.A[i], zero, inf)
 		}
 		v.A = a
 	}
@@ -134,11 +140,15 @@ func (r *runner) check(c []string, what string) {
 	if rep := got; rep.Kind == 'e' && strings.HasPrefix(rep.S, "HARNESS-SHAPE") {
 		r.t.Fatalf("%s: %s\ntrace:\n%s", what, rep.S, r.dump())
 	}
-	if !resp.Equal(got, want) && known.Active(findingNegZero) && strings.HasPrefix(c[0], "z") && resp.Equal(unsignZero(got), unsignZero(want)) {
-		// recorded finding: the sign of a zero score is not reported the way Redis reports it
-		// (everything else of the reply - members, order, counts - is compared as usual)
-		r.zeroSign++
-		return
+	if !resp.Equal(got, want) && strings.HasPrefix(c[0], "z") {
+		// recorded findings: the sign of a zero score and the spelling of an infinite one are not
+		// reported the way Redis reports them (everything else of the reply - members, order,
+		// counts, every other score - is compared as usual)
+		zero, inf := known.Active(findingNegZero), known.Active(findingInfSpelling)
+		if (zero || inf) && resp.Equal(scoreSpelling(got, zero, inf), scoreSpelling(want, zero, inf)) {
+			r.zeroSign++
+			return
+		}
 	}
 	if !resp.Equal(got, want) {
 		r.t.Fatalf("%s: reply differs from the reference model\n  command: %s\n  got:  %s\n  want: %s\ntrace (command -> implementation reply):\n%s", what, gen.Quote(c), got, want, r.dump())
@@ -243,6 +253,20 @@ func runCase(t *rapid.T, o opts) {
 	if negZero {
 		pool.Scores[0] = "-0" // the same number as 0 with another spelling: ties, by-score bounds, ZINCRBY by nothing
 	}
+	// scores at the edge of the number line: infinities (valid scores in Redis) and NaN (refused)
+	exotic := rapid.IntRange(0, 7).Draw(t, "exotic")
+	last := len(pool.Scores) - 1
+	switch exotic {
+	case 0:
+		pool.Scores[last] = "inf"
+	case 1:
+		pool.Scores[last] = "-inf"
+		if last > 1 {
+			pool.Scores[last-1] = "+inf" // ZINCRBY of one onto the other has no number as a result
+		}
+	case 2:
+		pool.Scores[last] = "nan"
+	}
 	g := gen.NewGrammar(gen.FamKV|gen.FamHash|gen.FamList|gen.FamSet|gen.FamZSet, gen.FarDurations)
 	n := rapid.IntRange(1, 60).Draw(t, "ncmds")
 	sim, err := simkv.New(simkv.Options{Engine: o.engine, ExpPolicy: o.policy, Partitions: o.parts})
@@ -303,6 +327,12 @@ func runCase(t *rapid.T, o opts) {
 	excluded += r.zeroSign
 	if negZero {
 		labels = append(labels, "negative_zero_in_score_pool")
+	}
+	if exotic <= 1 {
+		labels = append(labels, "infinite_score_in_pool")
+	}
+	if exotic == 2 {
+		labels = append(labels, "nan_in_score_pool")
 	}
 	if excluded > 0 {
 		rc.Count("excluded_by_known_finding", int64(excluded))
